@@ -23,8 +23,8 @@ Property clauses and the theorems that carry them
 * only the owner, only while waiting . `destroy_iff_owner_and_waiting`, `destroy_rejected_once_queued_or_gone`,
                                        `gone_never_fires`
 * no starvation ...................... `head_always_fits`, `queued_trigger_runs_within_its_position`
-* block functions total .............. `begin_block_never_panics`, `end_block_never_panics_with_clean_buckets`;
-  the code violates it otherwise ..... `end_block_panics_with_txevent_named_block_height` (finding)
+* supporting (not clauses of C17) ..... `begin_block_never_panics`, `end_block_never_panics_with_clean_buckets`
+* observations outside C17's clauses .. `…_observation` (see observations/C17.md)
 -/
 import PvProofs.Lemmas.TrigMisc
 
@@ -388,7 +388,7 @@ theorem queued_trigger_runs_within_its_position (ops more : List Op) (pre post :
     id ∈ executedIds (run (run State.init ops).1 more).2 :=
   drains more _ pre post id (HInv_reach ops).wf hq hb
 
-/-! ## the block functions are total … -/
+/-! ## supporting: when the block functions are total (no clause of C17 demands it) -/
 
 /-- After any history, `ProcessTriggers` does not panic (no missing queue item, no missing gas
 limit), whatever runs out of gas. -/
@@ -405,9 +405,12 @@ theorem end_block_never_panics_with_clean_buckets (ops : List Op) (evs : List Ab
   obtain ⟨ts, hts⟩ := Option.isSome_iff_exists.1 (detectAll_isSome (HInv_reach ops).wf evs h tm hc)
   simp [detectBlockEvents, hts]
 
-/-! ## … except for what `TransactionEvent.Validate` lets through (findings) -/
+/-! ## observations — outside C17's clauses; see observations/
 
-/-- FINDING (x/trigger/keeper/event_detector.go:53-56, x/trigger/types/trigger.go:86): a
+Three defects of the code that the model mirrors faithfully.  None breaks a clause of C17 (all of
+which are safety statements and still hold); they are recorded in `observations/C17.md`. -/
+
+/-- OBSERVATION, outside C17's clauses; see observations/ (x/trigger/keeper/event_detector.go:53-56, x/trigger/types/trigger.go:86): a
 `TransactionEvent` may be named like the block-height bucket.  The create transaction is accepted,
 and from then on every EndBlock panics in `detectBlockHeightEvents`' unchecked type assertion. -/
 def poisonHistory : List Op :=
@@ -415,33 +418,33 @@ def poisonHistory : List Op :=
     .endBlock [] 10 1000,
     .endBlock [⟨"transfer", []⟩] 11 1006 ]
 
-theorem end_block_panics_with_txevent_named_block_height :
+theorem end_block_panics_with_txevent_named_block_height_observation :
     (run State.init poisonHistory).2 = [.created 1 497490, .panicked, .panicked] := by
   decide
 
-/-- The same with other spellings of the two reserved names. -/
-theorem end_block_panics_with_txevent_named_block_time :
+/-- Outside C17's clauses; see observations/.  The same with other spellings of the two reserved names. -/
+theorem end_block_panics_with_txevent_named_block_time_observation :
     (run State.init [ .create ⟨["A"], .tx " Block-Time" [], [.boom]⟩ 2510 10 1000,
                       .endBlock [] 10 1000 ]).2 = [.created 1 0, .panicked] := by
   decide
 
-/-- OBSERVATION (event_detector.go:39): the per-block `detectedTriggers` map is consulted for key
+/-- OBSERVATION, outside C17's clauses; see observations/ (event_detector.go:39): the per-block `detectedTriggers` map is consulted for key
 *presence*, so a trigger that failed to match one event of its type is not compared with later
 events of that type in the same block — the documented condition is met, the trigger is not
 detected (it may be detected in a later block).  Here trigger 1 waits for `ping` with `k=2`; the
 block emits `ping k=1` then `ping k=2`. -/
-theorem a_later_matching_event_is_missed :
+theorem a_later_matching_event_is_missed_observation :
     let ops := [ Op.create ⟨["A"], .tx "ping" [("k", "2")], [.send "A" "B" 1]⟩ 500000 10 1000,
                  Op.endBlock [⟨"ping", [("k", "1")]⟩, ⟨"ping", [("k", "2")]⟩] 10 1000 ]
     (run State.init ops).2 = [.created 1 497490, .detected []] ∧
     conditionMet (.tx "ping" [("k", "2")]) [⟨"ping", [("k", "1")]⟩, ⟨"ping", [("k", "2")]⟩] 10 1000 = true := by
   decide
 
-/-- OBSERVATION (trigger.go:132, event_detector.go:80-88): a block-time trigger far enough in the
+/-- OBSERVATION, outside C17's clauses; see observations/ (trigger.go:132, event_detector.go:80-88): a block-time trigger far enough in the
 future (after the year 2554) gets a wrapped-around `uint64` nanosecond order, sorts before every
 sane time trigger, and the iteration's terminator stops at it: no time trigger is detected any
 more.  Trigger 2 (due at 1700000005) is not detected at time 1700000010 while trigger 1 exists. -/
-theorem a_far_future_time_trigger_blocks_all_time_triggers :
+theorem a_far_future_time_trigger_blocks_all_time_triggers_observation :
     let ops := [ Op.create ⟨["A"], .time 20000000000, [.send "A" "B" 1]⟩ 500000 10 1700000000,
                  Op.create ⟨["B"], .time 1700000005, [.send "B" "A" 1]⟩ 500000 10 1700000000,
                  Op.endBlock [] 11 1700000010 ]
